@@ -485,6 +485,13 @@ type TimePrice struct {
 	Last   *big.Int
 }
 
+// PriceReward returns the block reward derived from the BIP/USDT price r1/r0: 350 * price^(1/4) BIP, in pip
+func PriceReward(r0, r1 *big.Int) *big.Int {
+	price := big.NewRat(1, 1).SetFrac(r1, r0)
+	reward, _ := new(big.Float).Mul(new(big.Float).Mul(math.Pow(new(big.Float).SetRat(price), big.NewFloat(0.25)), big.NewFloat(350)), big.NewFloat(1e18)).Int(nil)
+	return reward
+}
+
 func (appDB *AppDB) UpdatePriceFix(t time.Time, r0, r1 *big.Int) (reward, safeReward *big.Int) {
 	tOld, reserve0, reserve1, last, off := appDB.GetPrice()
 
